@@ -1,10 +1,280 @@
-(* C06 — composition: property theorems only (skeleton, extended below). *)
-From Coq Require Import List Arith.
-From QV.Core Require Import OF Sums Mat.
-From QV.Model Require Import QObj C06_Compose.
+(* C06 — composition implements quantum mechanics and is associative: property theorems only.
 
-(* POVM after a gate is the Heisenberg dual: <G^T p, s> = <p, G s> *)
-Theorem C06_povm_gate_heisenberg : forall (F : OF) n (G : rmat F) (p s : rvec F),
-  dot n (mv n (mT G) p) s = dot n p (mv n G s).
-Proof. intros. rewrite dot_mv. apply dot_ext; [apply veq_refl|]. intros i Hi. reflexivity. Qed.
-Print Assumptions C06_povm_gate_heisenberg.
+   THE MODEL THESE THEOREMS ARE ABOUT is the one the harness compares with the implementation on every run:
+   Model/C06_Compose.v with fix_mm = fix_ps = true and gm_mode1_cb, i.e. quara's code AFTER the three repairs of /verif/fixes
+   (compose-mprocess-mprocess-order-layout, compose-mprocess-state-poststate-normalisation, povm-generate-mprocess-mode1-eigenvectors).
+   The three `_refuted` theorems at the end are about the clearly labelled definitions of the code AS IT WAS BEFORE each fix
+   (fix_mm = false / fix_ps = false / gm_mode1_cb_prefix); the harness uses the same definitions to recognise a regression.
+
+   Everything is generic in the ordered field F (holds for the executed Qc and for R), in the dimension and in the matrix basis
+   (hypotheses on the basis are the QObj predicates), and axiom-free.  Convention of the code: compose(a, b) = "a AFTER b". *)
+From Coq Require Import List Arith Bool ZArith QArith Qcanon.
+From QV.Core Require Import OF QcOF Sums Mat Cplx Psd.
+From QV.Model Require Import QObj HermEmbed Multinomial C06_Compose C06_Spec C06_Witness.
+From QV.Proofs Require Import C06_Linear C06_Chain C06_Coded C06_QM C06_Main C06_GenMProcess C06_Physical C06_Witness.
+Import ListNotations.
+
+(* ================================================================== 1. a gate acts on a state through its Kraus operators *)
+(* compose(Gate, State) returns the coefficient vector of  sum_K K rho K^dagger  — any dimension, any basis, any Kraus list *)
+Theorem C06_gate_on_state_kraus : forall (F : OF) (d : nat) (B : nat -> cmat F) (Ks : list (cmat F)) (s : Z) (v : rvec F)
+    (sd atol eps8 : F) (ortho : bool) (ivec : rvec F),
+  exists v' : rvec F,
+    compose2 F (d * d) sd atol eps8 ortho ivec true true (QGate F s (hs_of_kraus d B Ks)) (QState F s v) = MOk (QState F s v') /\
+    (forall a : nat, v' a = vec_of_op d B (kraus_apply F d Ks (op_of_vec d B v)) a).
+Proof. exact gate_on_state_denotes. Qed.
+Print Assumptions C06_gate_on_state_kraus.
+
+(* ================================================================== 2. a POVM on a state gives the Born-rule distribution *)
+(* the number <p, s> the code computes is  Re tr(Pi^dagger rho)  (orthonormal basis) *)
+Theorem C06_born_rule : forall (F : OF) (d : nat) (B : nat -> cmat F) (p s : rvec F),
+  basis_orthonormal d B -> born d p s = op_inner F d (op_of_vec d B p) (op_of_vec d B s).
+Proof. exact born_is_trace. Qed.
+Print Assumptions C06_born_rule.
+(* ... non-negative for positive semidefinite Pi and rho *)
+Theorem C06_born_nonneg : forall (F : OF) (d : nat) (B : nat -> cmat F) (p s : rvec F),
+  basis_orthonormal d B -> cpsd F d (op_of_vec d B p) -> cpsd F d (op_of_vec d B s) -> kle F (c0 F) (born d p s).
+Proof. exact born_nonneg. Qed.
+Print Assumptions C06_born_nonneg.
+(* ... summing to tr rho (= 1) when the POVM elements sum to the identity *)
+Theorem C06_born_sums_to_trace : forall (F : OF) (d : nat) (sd : F) (B : nat -> cmat F) (P : list (rvec F)) (s : rvec F),
+  (0 < d)%nat -> basis_orthonormal d B -> basis_0th_identity d sd B -> veq (d * d) (vsum F P) (id_vec F sd) ->
+  lsumF F (born_list F (d * d) P s) = ctr F d (op_of_vec d B s).
+Proof. exact born_sums_to_trace. Qed.
+Print Assumptions C06_born_sums_to_trace.
+(* compose(Povm, State): when no Born number is below the truncation threshold (atol) and they sum to one, nothing is truncated or
+   renormalised: the numbers handed to the MultinomialDistribution constructor (C16) ARE the Born numbers, shape (number of outcomes) *)
+Theorem C06_povm_on_state_born : forall (F : OF) (n : nat) (sd atol eps8 : F) (ortho : bool) (ivec : rvec F) (s : Z) (P : list (rvec F)) (v : rvec F),
+  Forall (fun p => kle F atol p) (born_list F n P v) -> lsum F (born_list F n P v) = c1 F ->
+  compose2 F n sd atol eps8 ortho ivec true true (QPovm F s P) (QState F s v) =
+  match construct F eps8 eps8 (born_list F n P v) (Some [length P]) with MErr c => MErr c | MOk D => MOk (QDist F D) end.
+Proof. exact povm_on_state_born. Qed.
+Print Assumptions C06_povm_on_state_born.
+(* PARTIAL w.r.t. thresholds: Born numbers below atol are zeroed and the rest renormalised (truncate_and_normalize); the resulting
+   deviation from the Born rule is bounded by the zeroed mass — modelled and compared on every run, not stated as a theorem. *)
+
+(* ================================================================== 3. a POVM after a gate / measurement process: Heisenberg picture *)
+Theorem C06_povm_after_gate_heisenberg : forall (F : OF) (n : nat) (sd atol eps8 : F) (ortho : bool) (ivec : rvec F) (s : Z) (P : list (rvec F)) (G : rmat F),
+  exists P', compose2 F n sd atol eps8 ortho ivec true true (QPovm F s P) (QGate F s G) = MOk (QPovm F s P') /\
+             forall sv, born_list F n P' sv = born_list F n P (gate_state F n G sv).
+Proof. exact povm_after_gate_heisenberg. Qed.
+Print Assumptions C06_povm_after_gate_heisenberg.
+(* joint outcome (x of the instrument, y of the POVM) at the row-major position x*|P| + y (earlier measurement = major index),
+   element = Heisenberg dual of P_y through H_x:  <P'_(x,y), rho> = <P_y, H_x rho> *)
+Theorem C06_povm_after_mprocess_heisenberg : forall (F : OF) (n : nat) (sd atol eps8 : F) (ortho : bool) (ivec : rvec F) (s : Z) (P : list (rvec F)) (M : mproc F),
+  mp_sys F M = s ->
+  exists P', compose2 F n sd atol eps8 ortho ivec true true (QPovm F s P) (QMProc F M) = MOk (QPovm F s P') /\
+             length P' = (length (mp_hss F M) * length P)%nat /\
+             forall x y sv, (x < length (mp_hss F M))%nat -> (y < length P)%nat ->
+               dot n (nth (x * length P + y) P' (dv F)) sv = dot n (nth y P (dv F)) (mv n (nth x (mp_hss F M) (dm F)) sv).
+Proof. exact povm_after_mproc_heisenberg. Qed.
+Print Assumptions C06_povm_after_mprocess_heisenberg.
+
+(* ================================================================== 4. a measurement process on a state *)
+(* the probability rule  p_x = sd (HS_x v)_0  is the trace of the un-normalised post-measurement operator  sum_K K rho K^dagger *)
+Theorem C06_mprocess_prob_is_trace : forall (F : OF) (d : nat) (sd : F) (B : nat -> cmat F) (Ks : list (cmat F)) (v : rvec F),
+  basis_0th_identity d sd B ->
+  cmul F sd (gate_state F (d * d) (hs_of_kraus d B Ks) v 0%nat) = ctr F d (kraus_apply F d Ks (op_of_vec d B v)).
+Proof. exact mproc_prob_is_trace. Qed.
+Print Assumptions C06_mprocess_prob_is_trace.
+(* ... consistent with the POVM the process induces (MProcess.to_povm):  p_x = <to_povm_x, rho> , and to_povm_x is the coefficient
+   vector of  sum_K K^dagger K *)
+Theorem C06_mprocess_prob_is_induced_povm : forall (F : OF) (n : nat) (sd : F) (H : rmat F) (v : rvec F),
+  cmul F sd (mv n H v 0%nat) = dot n (fun b => cmul F sd (H 0%nat b)) v.
+Proof. exact to_povm_born. Qed.
+Print Assumptions C06_mprocess_prob_is_induced_povm.
+Theorem C06_to_povm_is_kraus_effect : forall (F : OF) (d : nat) (sd : F) (B : nat -> cmat F) (Ks : list (cmat F)) (b : nat),
+  basis_0th_identity d sd B -> cmul F sd (hs_of_kraus d B Ks 0%nat b) = vec_of_op d B (kraus_effect F d Ks) b.
+Proof. exact to_povm_kraus. Qed.
+Print Assumptions C06_to_povm_is_kraus_effect.
+(* compose(MProcess, State) when no outcome is cut (p_x > eps_zero for all x): outcome x carries p_x and the post state H_x v / p_x,
+   shape = the shape of the process *)
+Theorem C06_mprocess_on_state_nocut : forall (F : OF) (n : nat) (sd atol eps8 : F) (ortho : bool) (ivec : rvec F) (M : mproc F) (s : Z) (v : rvec F),
+  mp_sys F M = s -> ortho = true ->
+  forallb (fun H => negb (mps_cut F (mp_eps F M) (c1 F) (cmul F sd (mv n H v 0%nat)))) (mp_hss F M) = true ->
+  compose2 F n sd atol eps8 ortho ivec true true (QMProc F M) (QState F s v) =
+  match construct F eps8 eps8 (map (fun H => cmul F (c1 F) (cmul F sd (mv n H v 0%nat))) (mp_hss F M)) (Some (mp_shape F M)) with
+  | MErr c => MErr c
+  | MOk D => MOk (QEns F {| en_sys := s; en_states := map (fun H => mps_post F (mv n H v) (cmul F sd (mv n H v 0%nat))) (mp_hss F M);
+                            en_dist := D; en_eps := mp_eps F M |})
+  end.
+Proof. exact mproc_on_state_nocut. Qed.
+Print Assumptions C06_mprocess_on_state_nocut.
+(* the post state times its probability is the un-normalised M_x(rho) *)
+Theorem C06_post_state_times_prob : forall (F : OF) (m : rvec F) (p : F) (i : nat), p <> c0 F -> cmul F p (mps_post F m p i) = m i.
+Proof. exact mps_post_spec. Qed.
+Print Assumptions C06_post_state_times_prob.
+(* NORMALISED post-measurement states, whatever is cut: every post state compose(MProcess, State) returns is the zero vector
+   (outcome cut / probability zero) or has trace one ( sd * rho_0 = 1 ) *)
+Theorem C06_mprocess_post_state_normalised : forall (F : OF) (n : nat) (sd atol eps8 : F) (ortho : bool) (ivec : rvec F) (M : mproc F) (s : Z) (v : rvec F) (E : ensemble F),
+  mp_sys F M = s -> ortho = true ->
+  compose2 F n sd atol eps8 ortho ivec true true (QMProc F M) (QState F s v) = MOk (QEns F E) ->
+  Forall (normalised_or_zero F sd) (en_states F E).
+Proof. exact mproc_on_state_post_normalised. Qed.
+Print Assumptions C06_mprocess_post_state_normalised.
+(* PARTIAL w.r.t. thresholds: the renormalisation of the probabilities after a cut and MProcess on StateEnsemble / Povm on StateEnsemble
+   (weights, eps_zero of the ensemble, zero distributions) are modelled and compared on every run, not stated as theorems. *)
+
+(* ================================================================== 5. a measurement process after a measurement process *)
+(* compose(M1, M2) (M2 acts first): shape = shape(M2) ++ shape(M1) (earlier measurement first) and at the row-major position
+   x2*|M1| + x1 the map "first H2_x2, then H1_x1" *)
+Theorem C06_mprocess_after_mprocess_layout : forall (F : OF) (n : nat) (sd atol eps8 : F) (ortho : bool) (ivec : rvec F) (M1 M2 : mproc F),
+  mp_sys F M1 = mp_sys F M2 ->
+  length (mp_hss F M1) = prodn (mp_shape F M1) -> length (mp_hss F M2) = prodn (mp_shape F M2) ->
+  mp_shape F M2 ++ mp_shape F M1 <> [] ->
+  exists M, compose2 F n sd atol eps8 ortho ivec true true (QMProc F M1) (QMProc F M2) = MOk (QMProc F M) /\
+            mp_shape F M = mp_shape F M2 ++ mp_shape F M1 /\
+            length (mp_hss F M) = (length (mp_hss F M2) * length (mp_hss F M1))%nat /\
+            forall x2 x1 v i, (x2 < length (mp_hss F M2))%nat -> (x1 < length (mp_hss F M1))%nat ->
+              mv n (nth (x2 * length (mp_hss F M1) + x1) (mp_hss F M) (dm F)) v i
+              = mv n (nth x1 (mp_hss F M1) (dm F)) (mv n (nth x2 (mp_hss F M2) (dm F)) v) i.
+Proof. exact mproc_after_mproc_layout. Qed.
+Print Assumptions C06_mprocess_after_mprocess_layout.
+
+(* ================================================================== 6. associativity: all chains, all bracketings *)
+(* linear content of EVERY type-valid chain (state / ensemble as un-normalised vectors p_x rho_x, gates, instruments, a POVM; joint
+   probabilities as Born numbers): any two bracketings of the same chain that are defined give the same entries at the same
+   positions (req: same kind, same length, pointwise equal).  [eval F n true] is the composition table of the code. *)
+Theorem C06_bracketing_independent : forall (F : OF) (n : nat) (t1 t2 : tree F) (r1 r2 : robj F),
+  flatten F t1 = flatten F t2 -> eval F n true t1 = Some r1 -> eval F n true t2 = Some r2 -> req F n r1 r2.
+Proof. exact bracketing_independent. Qed.
+Print Assumptions C06_bracketing_independent.
+(* the same at the level of compose2 itself (the compared model) for chains of gates / measurement processes, optionally with a POVM
+   in front: same HS matrices / POVM vectors at the same positions ... *)
+Theorem C06_compose2_bracketing_independent : forall (F : OF) (n : nat) (sd atol eps8 : F) (ortho : bool) (ivec : rvec F) (t1 t2 : qtree F) (c1 c2 : qobj F),
+  qflat F t1 = qflat F t2 -> forallb (is_linear F) (qflat F t1) = true ->
+  qeval F n sd atol eps8 ortho ivec t1 = MOk c1 -> qeval F n sd atol eps8 ortho ivec t2 = MOk c2 ->
+  req F n (raw_lin F c1) (raw_lin F c2).
+Proof. exact compose2_bracketing_independent. Qed.
+Print Assumptions C06_compose2_bracketing_independent.
+(* ... and the same outcome shape (= labelling) *)
+Theorem C06_compose2_bracketing_same_shape : forall (F : OF) (n : nat) (sd atol eps8 : F) (ortho : bool) (ivec : rvec F) (t1 t2 : qtree F) (c1 c2 : qobj F),
+  qflat F t1 = qflat F t2 ->
+  qeval F n sd atol eps8 ortho ivec t1 = MOk c1 -> qeval F n sd atol eps8 ortho ivec t2 = MOk c2 ->
+  is_ops F c1 = true -> is_ops F c2 = true -> shape_of F c1 = shape_of F c2.
+Proof. exact compose2_bracketing_same_shape. Qed.
+Print Assumptions C06_compose2_bracketing_same_shape.
+(* PARTIAL w.r.t. the full property: for chains that end in a state the code normalises / cuts after every step; bracketing
+   independence of the NORMALISED results (up to the cut mass) is compared on every run against the exact direct evaluation and is
+   not a theorem.  C06_bracketing_independent covers their linear (un-normalised) content for all chains. *)
+
+(* ================================================================== 7. composing physical operations gives a physical result *)
+(* trace preservation: the first row of the product of two TP HS matrices is e_0 ... *)
+Theorem C06_gate_gate_trace_preserving : forall (F : OF) (n : nat) (G1 G2 : rmat F),
+  (0 < n)%nat -> tp_row F n G1 -> tp_row F n G2 -> tp_row F n (mmul n G1 G2).
+Proof. exact tp_row_mmul. Qed.
+Print Assumptions C06_gate_gate_trace_preserving.
+(* ... and the composite of two sum-TP instruments is sum-TP *)
+Theorem C06_mprocess_after_mprocess_trace_preserving : forall (F : OF) (n : nat) (sd atol eps8 : F) (ortho : bool) (ivec : rvec F) (M1 M2 M : mproc F),
+  (0 < n)%nat -> compose2 F n sd atol eps8 ortho ivec true true (QMProc F M1) (QMProc F M2) = MOk (QMProc F M) ->
+  tp_row F n (msum F (mp_hss F M1)) -> tp_row F n (msum F (mp_hss F M2)) -> tp_row F n (msum F (mp_hss F M)).
+Proof. exact mproc_after_mproc_tp. Qed.
+Print Assumptions C06_mprocess_after_mprocess_trace_preserving.
+(* complete positivity in the Kraus sense: the product of the HS matrices of two Kraus-form maps (what Gate o Gate and every HS product
+   inside Gate o MProcess / MProcess o Gate / MProcess o MProcess computes) is the HS matrix of the Kraus-form map with operators K1 K2 *)
+Theorem C06_composition_preserves_kraus_form : forall (F : OF) (d : nat) (B : nat -> cmat F) (Ks1 Ks2 : list (cmat F)) (a b : nat),
+  basis_complete d B -> basis_hermitian d B -> (a < d * d)%nat -> (b < d * d)%nat ->
+  gate_gate F (d * d) (hs_of_kraus d B Ks1) (hs_of_kraus d B Ks2) a b = hs_of_kraus d B (kraus_products F d Ks1 Ks2) a b.
+Proof. exact hs_of_kraus_compose. Qed.
+Print Assumptions C06_composition_preserves_kraus_form.
+(* PARTIAL: "completely positive" as PSD Choi matrix (DESIGN 2.9; Choi's theorem is not re-proved, so Kraus form => PSD Choi is not a
+   theorem here); on every run PSD-ness of the Choi matrix of every composite is DECIDED exactly by the verified psd_dec (C01). *)
+
+(* ================================================================== 8. Povm.generate_mprocess induces the POVM, every back-action mode *)
+(* mode 0: S (x) conj S with S Hermitian, S S = Pi (certificate checked on the sqrtm output): induced effect = Pi; entry (a,b) of the
+   induced row-major vector is Pi[b,a] *)
+Theorem C06_generate_mprocess_mode0_induces_povm : forall (F : OF) (d : nat) (S Pi : cmat F),
+  hermitian d S -> meq d d (mmul d S S) Pi ->
+  forall c, (c < d * d)%nat -> induced_effect_cb F d (gm_mode0_cb F d S) c = Pi (c mod d)%nat (c / d)%nat.
+Proof. exact gm_mode0_induces. Qed.
+Print Assumptions C06_generate_mprocess_mode0_induces_povm.
+(* ... and is the Lueders map  X |-> S X S^dagger  on row-major vectorised operators *)
+Theorem C06_generate_mprocess_mode0_is_luders : forall (F : OF) (d : nat) (S X : cmat F) (t : nat), (0 < d)%nat ->
+  mv (d * d) (gm_mode0_cb F d S) (vecr d X) t = vecr d (mmul d (mmul d S X) (cadj S)) t.
+Proof. exact gm_mode0_is_luders. Qed.
+Print Assumptions C06_generate_mprocess_mode0_is_luders.
+(* mode 1 (the code, including its grouping of exactly equal adjacent eigenvalues): V with orthonormal columns and
+   Pi = V diag(w) V^dagger (certificate checked on the eigh output): induced effect = Pi *)
+Theorem C06_generate_mprocess_mode1_induces_povm : forall (F : OF) (d : nat) (w : nat -> F) (V Pi : cmat F),
+  cols_orthonormal F d V -> meq d d Pi (spectral F d w V) ->
+  forall c, (c < d * d)%nat -> induced_effect_cb F d (gm_mode1_cb F d w V) c = Pi (c mod d)%nat (c / d)%nat.
+Proof. exact gm_mode1_induces_povm. Qed.
+Print Assumptions C06_generate_mprocess_mode1_induces_povm.
+(* mode 2: |rho_x>><<Pi_x| with tr rho_x = 1: MProcess.to_povm gives back Pi_x (one common post state, or one per outcome) ... *)
+Theorem C06_generate_mprocess_mode2_induces_povm : forall (F : OF) (n : nat) (sd : F) (P post : list (rvec F)),
+  Forall (trace_one F sd) post -> length post = length P -> Forall2 (veq n) (to_povm F sd (gm_mode2_list F P post)) P.
+Proof. exact gm_mode2_list_induces. Qed.
+Print Assumptions C06_generate_mprocess_mode2_induces_povm.
+Theorem C06_generate_mprocess_mode2_single_induces_povm : forall (F : OF) (n : nat) (sd : F) (P : list (rvec F)) (post : rvec F),
+  trace_one F sd post -> Forall2 (veq n) (to_povm F sd (gm_mode2_single F P post)) P.
+Proof. exact gm_mode2_single_induces. Qed.
+Print Assumptions C06_generate_mprocess_mode2_single_induces_povm.
+(* ... and the outcome map is measure-and-prepare:  |rho_x>><<Pi_x| v = <Pi_x, v> rho_x *)
+Theorem C06_generate_mprocess_mode2_measure_and_prepare : forall (F : OF) (n : nat) (p post v : rvec F) (a : nat),
+  mv n (fun a0 b => cmul F (post a0) (p b)) v a = cmul F (dot n p v) (post a).
+Proof. exact gm_mode2_action. Qed.
+Print Assumptions C06_generate_mprocess_mode2_measure_and_prepare.
+(* PARTIAL: complete positivity of the mode 0 / 1 / 2 instruments and the conversion comp basis -> matrix basis + truncate_hs are not
+   theorems; CP is decided exactly on every generated instrument by psd_dec, the conversion is part of the executed model. *)
+
+(* ================================================================== 9. the code AS IT WAS BEFORE the fixes violates the property
+   (statements about the labelled pre-fix definitions; computed witnesses on the 2-qubit normalised Pauli basis, sd = 2) *)
+(* before fix compose-mprocess-mprocess-order-layout: both bracketings of (MProcess A, MProcess B, State) are defined and give different
+   shapes and different probabilities *)
+Theorem C06_mprocess_mprocess_before_fix_refuted :
+  exists (A B : mproc QF) (s : Z) (v : rvec QF) (AB : qobj QF) (E1 E2 : ensemble QF),
+    w_fold false false [QMProc _ A; QMProc _ B; QState _ s v] = MOk (QEns _ E1) /\
+    w_compose2 false false (QMProc _ A) (QMProc _ B) = MOk AB /\
+    w_compose2 false false AB (QState _ s v) = MOk (QEns _ E2) /\
+    d_shape _ (en_dist _ E1) <> d_shape _ (en_dist _ E2) /\
+    d_ps _ (en_dist _ E1) <> d_ps _ (en_dist _ E2).
+Proof. exact compose_mprocess_mprocess_refuted. Qed.
+Print Assumptions C06_mprocess_mprocess_before_fix_refuted.
+(* before fix compose-mprocess-state-poststate-normalisation: a retained outcome whose post state has trace 199/200
+   ( w_cut false = the pre-fix compose2 of a z-measurement with eps_zero = 1/100 on diag(199/200, 1/200) (x) I/2 ) *)
+Theorem C06_post_state_before_fix_refuted :
+  exists (E : ensemble QF) (st : rvec QF),
+    w_cut false = MOk (QEns _ E) /\
+    nth 0 (d_ps _ (en_dist _ E)) 0%Qc <> 0%Qc /\ nth_error (en_states _ E) 0 = Some st /\ (w_sd * st 0%nat)%Qc <> 1%Qc.
+Proof. exact mprocess_poststate_refuted. Qed.
+Print Assumptions C06_post_state_before_fix_refuted.
+(* before fix povm-generate-mprocess-mode1-eigenvectors (rows of V, no conjugate) the instrument does not induce V diag(w) V^dagger, for
+   a real rotation and for a complex symmetric unitary; the code and the docstring formula do *)
+Theorem C06_generate_mprocess_mode1_before_fix_refuted :
+  chk_induces (gm_mode1_cb_prefix QF 2 w_eig V_real) (eig_matrix V_real) = false /\
+  chk_induces (gm_mode1_cb_prefix QF 2 w_eig V_cplx) (eig_matrix V_cplx) = false /\
+  chk_induces (gm_mode1_cb QF 2 w_eig V_real) (eig_matrix V_real) = true /\
+  chk_induces (gm_mode1_cb QF 2 w_eig V_cplx) (eig_matrix V_cplx) = true /\
+  chk_induces (gm_mode1_cb_doc QF 2 w_eig V_real) (eig_matrix V_real) = true /\
+  chk_induces (gm_mode1_cb_doc QF 2 w_eig V_cplx) (eig_matrix V_cplx) = true.
+Proof. exact generate_mprocess_mode1_refuted. Qed.
+Print Assumptions C06_generate_mprocess_mode1_before_fix_refuted.
+
+(* ================================================================== the hypotheses are satisfiable (concrete, non-trivial instances) *)
+(* the basis hypotheses: 2-qubit normalised Pauli basis, sd = 2, exactly in Qc *)
+Example C06_example_basis : basis_orthonormal 4 pauli2 /\ basis_hermitian 4 pauli2 /\ basis_complete 4 pauli2 /\
+  @basis_0th_identity Qc_OF 4 w_sd pauli2 /\ (w_sd * w_sd = q 4 1)%Qc.
+Proof. exact (conj pauli2_orthonormal (conj pauli2_hermitian (conj pauli2_complete (conj pauli2_0th w_sd_sq)))). Qed.
+(* Povm on State without truncation: the POVM induced by the 2-outcome x-type instrument B on the witness state *)
+Example C06_example_born : Forall (fun p => kle QF w_atol p) (born_list QF w_n w_povmB w_vec) /\ lsum QF (born_list QF w_n w_povmB w_vec) = 1%Qc.
+Proof. exact (conj w_born_ge w_born_sum). Qed.
+(* MProcess on State with no outcome cut *)
+Example C06_example_nocut : forallb (fun H => negb (mps_cut QF (mp_eps QF mpB) 1%Qc (w_sd * mv w_n H w_vec 0%nat)%Qc)) (mp_hss QF mpB) = true.
+Proof. exact w_nocut. Qed.
+(* two bracketings of (A, B, B) (3-outcome z-type after two non-commuting 2-outcome x-type instruments) are both defined under the code *)
+Example C06_example_bracketings : qflat QF w_t1 = qflat QF w_t2 /\ forallb (is_linear QF) (qflat QF w_t1) = true /\
+  is_ok (w_qeval w_t1) = true /\ is_ok (w_qeval w_t2) = true.
+Proof. exact (conj w_t_flat (conj w_t_linear (conj w_t1_ok w_t2_ok))). Qed.
+(* ... and on the chain (A, B, state) the code gives the same distribution with the same shape [2; 3] for both bracketings *)
+Example C06_example_chain_agrees : dist_of (w_left true) = dist_of (w_seq true).
+Proof. exact compose_mprocess_mprocess_fixed_agrees. Qed.
+(* the same input that refutes the pre-fix post state: under the code the retained post state has trace one *)
+Example C06_example_post_state : exists (E : ensemble QF) (st : rvec QF), w_cut true = MOk (QEns _ E) /\
+  nth 0 (d_ps _ (en_dist _ E)) 0%Qc <> 0%Qc /\ nth_error (en_states _ E) 0 = Some st /\ (w_sd * st 0%nat)%Qc = 1%Qc.
+Proof. exact mprocess_poststate_fixed_witness. Qed.
+(* mode 1: rational unitaries (a real rotation, a complex symmetric one) with orthonormal columns, eig_matrix = V diag(w) V^dagger *)
+Example C06_example_mode1 : cols_orthonormal QF 2 V_real /\ cols_orthonormal QF 2 V_cplx /\
+  meq 2 2 (eig_matrix V_real) (spectral QF 2 w_eig V_real) /\ meq 2 2 (eig_matrix V_cplx) (spectral QF 2 w_eig V_cplx).
+Proof. exact (conj V_real_cols (conj V_cplx_cols (conj eig_matrix_spectral_real eig_matrix_spectral_cplx))). Qed.
+(* mode 0: a Hermitian (complex, non-diagonal) S; Pi := S S *)
+Example C06_example_mode0 : hermitian 2 S_herm /\ meq 2 2 (mmul 2 S_herm S_herm) (mmul 2 S_herm S_herm).
+Proof. exact (conj S_herm_hermitian (meq_refl 2 2 _)). Qed.
